@@ -273,7 +273,7 @@ func runC13(c *ctx) {
 		}
 		files = append(files, txt)
 	}
-	const fileAlpha = "[]\"{} \n\t.123Size TPSx/,a1+-<>FRCS0-"
+	const fileAlpha = "[]\"{} \n\t.123Size TPSx/,a1+-<>FRCS0-\v\f\x85\xa0\r"
 	for _, s := range files {
 		emitC13(c, 'F', s)
 		emitC13(c, 'F', "\xef\xbb\xbf"+s)
@@ -281,6 +281,13 @@ func runC13(c *ctx) {
 			emitC13(c, 'F', mutateBytes(r, s, fileAlpha))
 		}
 		emitC13(c, 'F', s+" {")
+		for _, ws := range []string{"\v", "\f", "\x85", "\xa0", "\r", "\xc2\xa0", "\xe2\x80\x83"} {
+			// a whitespace-like byte where a token starts / between tags and moves / inside the move text
+			emitC13(c, 'F', strings.Replace(s, "\n1.", "\n"+ws+"1.", 1))
+			emitC13(c, 'F', strings.Replace(s, " ", " "+ws, 3))
+			emitC13(c, 'F', ws+s)
+			emitC13(c, 'F', s+ws)
+		}
 		emitC13(c, 'F', s+" {unterminated")
 		emitC13(c, 'F', strings.Replace(s, "[Size \"", "[Size \"9", 1))
 		emitC13(c, 'F', strings.Replace(s, "[Size \"", "[Size \"-", 1))
